@@ -28,7 +28,9 @@ RULE = (
     "repeats and out-of-range entries); iter: every kind, iterated twice; cat: partitions of a dataset by consecutive "
     "slices, singletons from iteration / integer indexing, reversed and array-selected pieces, concatenated flat, "
     "left-nested and right-nested; fc: every analysis method (default and non-default options, called twice) on a "
-    "subset versus a freshly built twin; non-trivial when the selection is non-empty and not the whole dataset, or "
+    "subset versus a freshly built twin; overlapping iterations (zip, nested loops, two live iterators, analysis calls "
+    "inside a loop over the dataset) for every data class; >= 3 freshly built canonically labelled irregular / "
+    "multivariate pieces in every grouping (thorough: every composition of n <= 6 into >= 3 parts); non-trivial when the selection is non-empty and not the whole dataset, or "
     "when a concatenation has >= 2 non-empty pieces; distinct by content hash"
 )
 PARTIAL = [
@@ -275,6 +277,30 @@ def gen_cat(rng: Rng):
         yield dict(kind="cat", base=base, how=how, tree=tree)
 
 
+def _compositions(n, kmin=3):
+    def rec(rest):
+        if rest == 0:
+            yield []
+        for first in range(1, rest + 1):
+            for tail in rec(rest - first):
+                yield [first] + tail
+    return [c for c in rec(n) if len(c) >= kmin]
+
+
+def gen_cat_fresh(rng: Rng, sizes=None):
+    """>= 3 *freshly built* pieces (each labelled 0..k-1): nothing here is excused by the open finding."""
+    sizes = sizes or [rng.randint(1, 3) for _ in range(rng.randint(3, 5))]
+    shape = rng.choice([["I"], ["I"], ["I", "D"], ["D", "I"], ["I", "I"], ["D"]])
+    pieces = []
+    for k in sizes:
+        comps = [rand_comp(rng, k, kind, labels=list(range(k))) for kind in shape]
+        pieces.append(["U", comps[0]] if len(shape) == 1 else ["M", comps])
+    leaves = [["L", p] for p in pieces]
+    trees = groupings(leaves)
+    for tree in (trees if rng.random() < 0.5 else trees[:1]):
+        yield dict(kind="cat", base=None, how="fresh", tree=tree)
+
+
 def _slice_cases_all():
     vals = [None, -3, -2, -1, 0, 1, 2, 3]
     for n in range(0, 7):
@@ -343,9 +369,17 @@ def _gen_cases(rng: Rng, tier):
     for _ in range(300 if big else 60):
         o = rand_obj(rng, rng.randint(1, 6), rng.choice(["D", "I", "I", "B"]))
         yield dict(kind="iter", comp=o[1])
+    for _ in range(100 if big else 20):
+        yield dict(kind="iter", obj=rand_obj(rng, rng.randint(1, 5), "M"))
     # concatenation in every grouping
     for _ in range(1500 if big else 80):
         yield from gen_cat(rng)
+    for _ in range(400 if big else 45):
+        yield from gen_cat_fresh(rng)
+    if big:
+        for n in range(3, 7):
+            for comp in _compositions(n):
+                yield from gen_cat_fresh(rng, comp)
     # first-class
     for k in range(420 if big else 28):
         yield gen_fc(rng, k)
@@ -407,10 +441,29 @@ def run_impl(case):
             out["res"], out["bad"] = read_obj(res)
         return out
     if kind == "iter":
-        x = build_comp(case["comp"])
-        first = [read_comp(o) for o in x]
-        second = [read_comp(o) for o in x]
-        return dict(pieces=[s for s, _ in first], bad=[b for _, bb in first for b in bb], again=[s for s, _ in second])
+        multi = "obj" in case
+        x = build_obj(case["obj"]) if multi else build_comp(case["comp"])
+        rd = (lambda o: read_obj(o)) if multi else (lambda o: read_comp(o))
+        first = [rd(o) for o in x]
+        second = [rd(o) for o in x]
+        out = dict(pieces=[s for s, _ in first], bad=[b for _, bb in first for b in bb], again=[s for s, _ in second])
+        # overlapping iterations over one object: zip, nested loops, two live iterators
+        out["zip"] = [[rd(a)[0], rd(b)[0]] for a, b in zip(x, x)]
+        outer, inners = [], []
+        for a in x:
+            inners.append([rd(b)[0] for b in x])
+            outer.append(rd(a)[0])
+        out["nested_outer"], out["nested_inner"] = outer, inners
+        it1, it2 = iter(x), iter(x)
+        l1, l2 = [], []
+        for _ in range(len(first) + 1):
+            for it, acc in ((it1, l1), (it2, l2)):
+                try:
+                    acc.append(rd(next(it))[0])
+                except StopIteration:
+                    pass
+        out["live1"], out["live2"] = l1, l2
+        return out
     if kind == "cat":
         res, err = _outcome(lambda: _eval_tree(case["tree"]))
         out = dict(err=err)
@@ -581,7 +634,28 @@ def run_fc(case):
     labels = None
     if isinstance(sub, FD.IrregularFunctionalData):
         labels = [int(k) for k in sub.argvals.keys()]
-    return dict(select_err=None, results=results, labels=labels)
+    # analysis calls on the dataset *inside* a loop over it must not disturb the loop
+    plain, _ = _outcome(lambda: [summarise(sub[i]) for i in range(sub.n_obs)])
+    loops = {}
+    inner = {"noise_variance": lambda o: o.noise_variance(), "norm": lambda o: o.norm(), "iter": lambda o: [p for p in o]}
+    if isinstance(sub, FD.DenseFunctionalData) and sub.n_dimension == 1:
+        inner["smooth(LP)"] = lambda o: o.smooth(method="LP", bandwidth=0.5)
+        inner["to_basis"] = lambda o: o.to_basis()
+    if isinstance(sub, FD.MultivariateFunctionalData):
+        inner["to_long"] = lambda o: o.to_long()
+    for name, f in inner.items():
+        def loop(f=f):
+            acc = []
+            for p in sub:
+                try:
+                    f(sub)
+                except Exception:  # noqa: BLE001  (whether the call itself works is judged elsewhere)
+                    pass
+                acc.append(summarise(p))
+            return acc
+        got, err = _outcome(loop)
+        loops[name] = dict(got=got, err=err)
+    return dict(select_err=None, results=results, labels=labels, plain_pieces=plain, loops=loops)
 
 
 # --------------------------------------------------------------------------
@@ -605,6 +679,8 @@ def model_lines(case, impl):
     if kind == "get":
         return ["get " + " ".join(obj_tokens(case["obj"]) + index_tokens(case["ix"]))]
     if kind == "iter":
+        if "obj" in case:
+            return []     # iteration of a multivariate object = integer indexing (`get`); judged by the oracle
         return ["iter " + " ".join(comp_tokens(case["comp"]))]
     if kind == "cat":
         return ["cat " + " ".join(_tree_tokens(case["tree"]))]
@@ -750,13 +826,31 @@ def oracle(case, impl):
         if not impl["unchanged"]:
             vs.append(dict(clause="select_pure", entry=entry, causes=[], msg=f"indexing changed the indexed object {o}"))
     elif kind == "iter":
-        c = case["comp"]
-        entry = "iter(" + c[0] + ")"
-        ids = comp_ids(c)
-        got = [p.split(":")[1] for p in impl["pieces"]]
-        got_ids = [int(p.split("/")[-1]) if p != "-" else None for p in got]
-        if got_ids != ids:
-            vs.append(dict(clause="iter_content", entry=entry, causes=[], msg=f"iteration over {c} yielded {impl['pieces']}"))
+        if "obj" in case:
+            o = case["obj"]
+            c = o
+            entry = "iter(M)"
+            want = [obj_str(_select_desc(o, ["i", k])) for k in range(obj_nobs(o))]
+            if impl["pieces"] != want:
+                vs.append(dict(clause="iter_content", entry=entry, causes=[], msg=f"iteration over {o} yielded {impl['pieces']}; the observations are {want}"))
+        else:
+            c = case["comp"]
+            entry = "iter(" + c[0] + ")"
+            ids = comp_ids(c)
+            got = [p.split(":")[1] for p in impl["pieces"]]
+            got_ids = [int(p.split("/")[-1]) if p != "-" else None for p in got]
+            if got_ids != ids:
+                vs.append(dict(clause="iter_content", entry=entry, causes=[], msg=f"iteration over {c} yielded {impl['pieces']}"))
+        # overlapping iterations yield the same pieces as a single one
+        P = impl["pieces"]
+        for name, got2 in (("zip(x, x)", [a for a, _ in impl["zip"]]), ("zip(x, x) second", [b for _, b in impl["zip"]]),
+                           ("outer loop of a nested loop", impl["nested_outer"]), ("two live iterators (first)", impl["live1"]),
+                           ("two live iterators (second)", impl["live2"])):
+            if got2 != P:
+                vs.append(dict(clause="iter_overlap", entry=entry, causes=[], msg=f"{name} over {c} yielded {got2}; a single iteration yields {P}"))
+                break
+        if any(inner != P for inner in impl["nested_inner"]) or len(impl["nested_inner"]) != len(P):
+            vs.append(dict(clause="iter_overlap", entry=entry, causes=[], msg=f"inner loops of a nested loop over {c} yielded {impl['nested_inner']}; a single iteration yields {P}"))
         if impl["again"] != impl["pieces"]:
             vs.append(dict(clause="iter_repeatable", entry=entry, causes=[], msg=f"second iteration yielded {impl['again']} (first {impl['pieces']})"))
         if impl["bad"]:
@@ -783,6 +877,14 @@ def oracle(case, impl):
         if impl.get("select_err"):
             return [dict(clause="select_content", entry="__getitem__", causes=["raises_" + impl["select_err"]],
                          msg=f"selection {case['ix']} on {case['data']} data with {case['n']} observations raised {impl['select_err']}")]
+        for name, r in (impl.get("loops") or {}).items():
+            if impl.get("plain_pieces") is None:
+                break
+            if r["err"] is not None or not _same(_strip_labels(r["got"]), _strip_labels(impl["plain_pieces"])):
+                vs.append(dict(clause="iter_overlap", entry="iter+" + name.split("(")[0], causes=[],
+                               msg=f"looping over the subset ({case['data']} data, n_obs={case['n']}, subset {case['ix']}) while calling {name} on it "
+                                   f"yielded {('an exception ' + str(r['err'])) if r['err'] else str(len(r['got'])) + ' pieces that are not the observations'}"
+                                   f" ({len(impl['plain_pieces'])} observations)"))
         for name, r in impl["results"].items():
             entry = name.split("(")[0]
             what = f"{case['data']} data, n_obs={case['n']}, subset {case['ix']}"
